@@ -17,11 +17,12 @@ NAN_CODE = 1 << 40
 BAD = 10 ** 15          # marker for "not an integer / not the expected quotient" in the flat encoding
 TRUSTED = [
     "Coq 8.16.1 kernel + vm_compute (no native_compute); all C14 theorems: Closed under the global context",
-    "hand-written model coq/C14/Model.v of ibldsp.waveforms.compute_spike_features (integer-valued samples, "
-    "NaN as None), tied to /repo/src by this run's correspondence on all 21 data-frame columns",
-    "float64 facts used by the model: integer samples below 2^40 and their negations/differences are exact; "
-    "|a/b| <= 1.5 in float64 agrees with 2|a| <= 3|b| for such integers; quotient columns are compared "
-    "to 1e-9 relative, everything else exactly",
+    "hand-written model coq/C14/Model.v of ibldsp.waveforms.compute_spike_features, find_peak, pick_maxima, "
+    "weights_spk_ch (integer-valued samples, NaN as None, 2-D/3-D input), tied to /repo/src by this run's "
+    "correspondence on all 21 data-frame columns and on the helpers' outputs",
+    "float facts used by the model: integer / dyadic samples below 2^40 (2^24 for float32 input) and their "
+    "negations/differences are exact; |a/b| <= 1.5 in float64/float32 agrees with 2|a| <= 3|b| for such samples; "
+    "quotient columns are compared to 1e-9 relative (1e-6 for float32 input), everything else exactly",
     "harness/pC14.py generators, canonicaliser and oracle; k = int(round(recovery_duration_ms*fs/1000)) "
     "computed by the harness with Python's own round",
     "extraction (Require Extraction, ExtrOcamlBasic only), harness/driver.ml, ocamlfind ocamlopt; a sample of "
@@ -532,7 +533,16 @@ def gen_batches(ctx):
                     for w in batch:
                         if analyse(w)["pk"] == 0:
                             out.append(([w], None, None))
-    return [(b, fs, ms, pick_variant(rng, b)) for (b, fs, ms) in out if b]
+    res = [(b, fs, ms, pick_variant(rng, b)) for (b, fs, ms) in out if b]
+    # 2-D inputs (no leading axis) with NaN padding / single NaNs, always present
+    for _ in range(40 if ctx.thorough() else 8):
+        T, C = rng.randrange(10, 60), rng.randrange(2, 9)
+        w = gen_wave(rng, T, C, "spike")
+        for t in range(T):
+            w[t][C - 1 - (_ % 2)] = None
+        w[rng.randrange(T)][0] = None
+        res.append(([w], None, None, "2d"))
+    return res
 
 
 def whash(w):
@@ -571,6 +581,9 @@ def check_batch(ctx, batch, fs, ms, stats, do_meta=True, variant="f64"):
                          dict(desc, batch=batch), {"class": "batch", "clause": "batch_independence"})
         stats["raised"] += 1
         return res
+    if T <= k:
+        ctx.fail("recovery offset %d >= window length %d did not raise (recovery_point documents ValueError)" % (k, T),
+                 dict(desc, batch=batch), {"class": "short_window", "clause": "recovery_guard"})
     for wi, (w, r, info) in enumerate(zip(batch, res, infos)):
         for clause, msg in oracle_row(w, r, k, info):
             ctx.fail(msg, dict(desc, batch=[w]), classify_tags(info, clause))
@@ -702,7 +715,7 @@ def run(ctx):
         inputs.append(enc_inp(batch, k, 0, variant == "2d"))
         outputs.append(enc_obs(res, fs, variant_tol(variant)))
         descs.append({"fs": fs, "ms": ms, "k": k, "variant": variant, "batch": batch})
-        if bi % 3 == 0 and len(batch[0]) >= 1 and len(batch) * len(batch[0]) * len(batch[0][0]) <= 20000:
+        if (bi % 3 == 0 or variant == "2d") and len(batch[0]) >= 1 and len(batch) * len(batch[0]) * len(batch[0][0]) <= 20000:
             # the public helpers on the same batch: find_peak, pick_maxima, weights_spk_ch
             obs = impl_peaks(batch, variant)
             stats["peaks_calls"] += 1
@@ -738,7 +751,10 @@ def run(ctx):
              "single NaNs, and the grid of every (peak, trough) position pair for small T; default and non-default "
              "(fs, recovery_duration_ms). Each batch goes through the real compute_spike_features (all 21 columns "
              "compared with the Coq model), the property oracle, and re-runs of the real function on single rows, "
-             "a scaled copy and a channel-permuted copy. non-trivial = waveform of a non-raising call with T >= 10; "
+             "the reversed batch, a scaled copy, a channel-permuted copy and a copy with an all-NaN channel inserted; "
+             "the input array is handed over as float64 / float32 / int64 / int32 / int16 / Fortran order / strided "
+             "view / 2-D / dyadic non-integer (measured in array_variants); every third batch (and every 2-D one) "
+             "also goes through find_peak, pick_maxima and weights_spk_ch (model + oracle). non-trivial = waveform of a non-raising call with T >= 10; "
              "distinct by content hash",
         samples=samples, evaluations=n_waveforms, distinct_nontrivial=len(nontrivial),
         extra={"input_distribution": dict(stats, **sizes), "array_variants": variants, "exhaustive": False,
